@@ -2,8 +2,50 @@
     Model: Msg/Header.v (marshal, marshal_header, marshal_header_field and the nine field writers,
     the builders and standard messages), Msg/Flags.v (HeaderFlags), Msg/HeaderDecode.v (the decoders
     used for the round trip).  Specification: Wire/SpecEnc.v (spec_enc, encodable), Msg/HeaderSpec.v,
-    Msg/MsgSpec.v, Names/Spec.v. *)
-From RB Require Import Base.Prelude Msg.Flags.
+    Msg/MsgSpec.v, Names/Spec.v.  Examples: Msg/Examples.v. *)
+From RB Require Import Base.Prelude Sig.Types Sig.Validator Sig.ParserProofs Wire.Bytes Wire.Align Wire.Text Wire.Value
+  Wire.SpecEnc Wire.Decode Names.Spec Msg.Flags Msg.Header Msg.HeaderSpec Msg.MsgSpec Msg.HeaderDecode Msg.HeaderProofs Msg.Round.
+
+(* whenever a message marshals, the header bytes are exactly the specification's header: the 12 fixed bytes
+   (with the body length and the serial), the a(yv) value of the message's fields encoded at offset 12 by the
+   wire-format specification, zero padding to 8; that value is well typed and encodable (so the array is within the
+   64 MiB limit), SIGNATURE / UNIX_FDS are present exactly when the body is non-empty / descriptors are attached,
+   all names are in the specification's languages, the body's signature is valid, the type is not Invalid and the
+   whole message is within 128 MiB *)
+Theorem C05_conformant : forall m serial hb, rust_typed m -> nonzero_u32 serial -> marshal_msg m serial = Ok hb ->
+  hb = fixed_part (m_be m) (type_no (m_typ m)) (m_flags m) (len (m_body m)) serial
+       ++ spec_enc (m_be m) 12 (header_value m)
+       ++ zeros (padlen 8 (12 + len (spec_enc (m_be m) 12 (header_value m))))
+  /\ dec (m_be m) (slice hb 4 4) = len (m_body m) /\ dec (m_be m) (slice hb 8 4) = serial
+  /\ wt (header_value m) T_FIELDS = true /\ encodable (m_be m) 12 0 (header_value m) = true
+  /\ (m_body m <> [] -> In (sig_field (m_sig m)) (fields_of_msg m))
+  /\ (m_body m = [] -> ~ has SIGNATURE (fields_of_msg m))
+  /\ (m_nfds m <> 0 -> In (u32_field UNIX_FDS (m_nfds m)) (fields_of_msg m))
+  /\ (m_nfds m = 0 -> ~ has UNIX_FDS (fields_of_msg m))
+  /\ names_valid m /\ (m_body m <> [] -> validate_signature (m_sig m) = Ok tt)
+  /\ m_typ m <> MInvalid /\ len hb + len (m_body m) <= 2 ^ 27.
+Proof. exact conformant. Qed.
+Print Assumptions C05_conformant.
+
+(* a message with an invalid name or of type Invalid is refused *)
+Theorem C05_refuse : forall m serial, rust_typed m -> ~ names_valid m \/ m_typ m = MInvalid -> marshal_msg m serial = Err.
+Proof. exact marshal_msg_refuse. Qed.
+Print Assumptions C05_refuse.
+
+(* marshalling returns Ok or Err: no panic, whatever the message *)
+Theorem C05_total : forall m serial, ok_or_err (marshal_msg m serial).
+Proof. exact marshal_msg_total. Qed.
+Print Assumptions C05_total.
+
+(* the library's own decoders turn header ++ body back into the same type, flags, serial, header fields,
+   signature, body bytes and descriptor count (for messages that carry the fields their type requires) *)
+Theorem C05_roundtrip : forall m serial hb nfds, rust_typed m -> nonzero_u32 serial -> required_present m ->
+  marshal_msg m serial = Ok hb ->
+  decode_message (hb ++ m_body m) nfds =
+  Ok {| dm_hdr := hdr_of_msg m serial; dm_body := m_body m;
+        dm_sig := if is_nil (m_body m) then [] else m_sig m; dm_nfds := nfds |}.
+Proof. exact roundtrip. Qed.
+Print Assumptions C05_roundtrip.
 
 (* the flag helpers agree with the bits of the flags byte, for every flags byte and each of the three flags *)
 Theorem C05_flags : forall f x, x < 256 ->
